@@ -56,7 +56,9 @@ fn gate_exec<'a>(
         gate.notified().await;
         log_event(format!("e{k}"));
         drop(ctx);
-        Ok(ExecutionResult::success())
+        // `vhgate K CODE`: the job's body ends with exit status CODE
+        let code: u8 = args.get(2).map(|a| a.to_string()).and_then(|s| s.parse().ok()).unwrap_or(0);
+        Ok(ExecutionResult::new(code))
     })
 }
 
@@ -118,6 +120,8 @@ fn launch_script(form: char, k: u32) -> String {
         'p' => format!("( vhgate {k} ) &"),
         'a' => format!("true && vhgate {k} &"),
         'c' => format!("vhg{k}() {{ for vhi in 1; do if true; then vhgate {k} & fi; done; }}; vhg{k}"),
+        'x' => format!("vhgate {k} 3 &"),
+        'y' => format!("true && vhgate {k} 42 &"),
         _ => format!("vhgate {k} &"),
     }
 }
@@ -208,7 +212,7 @@ fn parse_sched(s: &str) -> Vec<u32> {
 /// have completed for this wait to return.  "blocked" is reported only when the environment is done
 /// and some needed task never completed (so the wall-clock timeout decides nothing when the wait is
 /// due to return: a slow machine cannot turn a returning wait into a blocked one).
-async fn with_schedule(shell: &mut vh::Sh, script: &str, sched: Vec<u32>, need: Vec<u32>, launched: u32, block_ms: u64) -> &'static str {
+async fn with_schedule(shell: &mut vh::Sh, script: &str, sched: Vec<u32>, need: Vec<u32>, launched: u32, block_ms: u64) -> String {
     let releaser = tokio::spawn(async move {
         for k in sched {
             release(k, launched).await;
@@ -233,12 +237,12 @@ async fn with_schedule(shell: &mut vh::Sh, script: &str, sched: Vec<u32>, need: 
         }
     };
     let _ = releaser.await;
+    // "st<n>": the wait returned with exit status n
     match r {
-        Some(Ok(0)) => "ok",
-        Some(Ok(_)) => "fail",
-        Some(Err(e)) if e == "hung" => "hung",
-        Some(Err(_)) => "error",
-        None => "blocked",
+        Some(Ok(n)) => format!("st{n}"),
+        Some(Err(e)) if e == "hung" => "hung".into(),
+        Some(Err(_)) => "error".into(),
+        None => "blocked".into(),
     }
 }
 
@@ -291,7 +295,8 @@ async fn one_case(line: String, block_ms: u64) -> String {
                 // a clone (subshell, command substitution) has its own empty job table: its wait must return at once
                 let need: Vec<u32> = if forks(c) { vec![] } else { (1..=launched).collect() };
                 let r = with_schedule(&mut shell, &in_ctx(c, "wait"), parse_sched(rest), need, launched, block_ms).await;
-                extra = r.into();
+                let r = if r == "st0" { "ok".to_string() } else { r };
+                extra = r.clone();
                 if r == "blocked" {
                     stuck = true;
                 }
@@ -304,7 +309,7 @@ async fn one_case(line: String, block_ms: u64) -> String {
                     _ => vec![],
                 };
                 let r = with_schedule(&mut shell, &in_ctx(c, &format!("wait {spec} 2>/dev/null")), parse_sched(sched), need, launched, block_ms).await;
-                extra = r.into();
+                extra = r.clone();
                 if r == "blocked" {
                     stuck = true;
                 }
